@@ -79,7 +79,8 @@ def decode(data):
             ops.append(c16.make_op(fdp.ConsumeIntInRange(0, len(c16.OP_KINDS) - 1),
                                    fdp.ConsumeIntInRange(0, 7), fdp.ConsumeUInt(8)))
         docs.append(ops)
-    return c16.make_case(relays, first, docs, chunk)
+    boot = c16.make_boot(fdp.ConsumeIntInRange(0, 255), len(docs))
+    return c16.make_case(relays, first, docs, chunk, boot)
 
 
 class PropertyViolation(Exception):
